@@ -472,6 +472,10 @@ class Facts:
             dl = d.get('callee_def') or d.get('ctor_def')
             same = [f for f in out if f.loc == dl]
             if same: out = same
+        if len(out) > 1 and 'mconst' in d:
+            # overloads that differ only in the const qualifier of the member function: the call names the one overload resolution chose
+            same = [f for f in out if bool(f.d.get('const')) == bool(d.get('mconst'))]
+            if same: out = same
         if d.get('virtual') and not d.get('qualified'):
             for f in self.fns:
                 for o in f.d.get('overrides') or []:
